@@ -8,7 +8,7 @@ derivatives of the regex over byte sets (vf/rx.py), written from the documented 
 import itertools
 import json
 
-from .. import cdrv, lang, nm, rx, work
+from .. import cdrv, gen, lang, nm, rx, work
 from ..common import Ctx
 
 LEVEL = "exploration"
@@ -79,6 +79,71 @@ def to_binary_ok(tree):
     return True
 
 
+def terminal_regexes(ctx, rng, closed, n):
+    """`parser { /R/; }` for regexes that cannot continue after a member (the parser is finished the moment R is): end() on a copy at
+    every prefix says DONE exactly when the prefix is a member - with nothing behind the regex an END taken for a data byte by a
+    wildcard / inverted-set edge that leads to the accept state shows as DONE on a proper prefix"""
+    import itertools
+    pick = closed if len(closed) <= n else rng.sample(closed, n)
+    for chunk in work.chunked(pick, 30):
+        progs = []
+        for i, (tree, binary, sem) in enumerate(chunk):
+            src = "parser {\n %s;\n}\n" % rx.src(tree, binary)
+            args = ["-feof-support", "-findirect-start-ptr", rng.choice(["-O0", "-O1", "-O2", "-O3"])]
+            r = nm.compile_source(src, args, name="p%d" % i)
+            if not r.ok:
+                ctx.count("terminal_regex_rejected")
+                continue
+            progs.append(cdrv.Prog(r, meta={"src": src, "args": args, "sem": sem, "regex": rx.src(tree, binary)}))
+        if not progs:
+            continue
+        batch = cdrv.Batch(progs).build()
+        runs, plan = [], {}
+        for p in batch.live:
+            sem = p.meta["sem"]
+            reps = sorted(min(x) for x in rx.partition(rx.sets_in(sem)))
+            if len(reps) > 5:
+                reps = sorted(rng.sample(reps, 5))
+            L = 1
+            while len(reps) ** (L + 1) <= 60 and L < 5:
+                L += 1
+            for si, w in enumerate(itertools.product(reps, repeat=L)):
+                lines = ["START", "ENDCOPY"]
+                for b in w:
+                    lines += ["FEED %02x" % b, "ENDCOPY"]
+                rid = "%s.t%d" % (p.name, si)
+                runs.append((rid, p, lines))
+                plan[rid] = (p, bytes(w))
+        res = batch.run(runs, timeout=900)
+        ctx.count("binaries")
+        for rid, (p, w) in plan.items():
+            run_ = res.get(rid)
+            if run_ is None or run_.abort:
+                if run_ is not None:
+                    ctx.violation("c07:sanitizer:" + run_.abort[0], "sanitizer report while matching: %s" % (run_.abort[1],), {"regex": p.meta["regex"], "nmfu_source": p.meta["src"], "nmfu_args": p.meta["args"], "input_hex": w.hex()})
+                continue
+            ctx.evaluations += 1
+            q = p.meta["sem"]
+            exp = [1]
+            for b in w:
+                q = rx.deriv(q, b)
+                if q == rx.EMPTY:
+                    break
+                exp.append(2 if rx.nullable(q) else 1)
+                if rx.nullable(q):
+                    break
+            got = [e[3] for e in run_.events if e[0] == "R" and e[1] == "C"][:len(exp)]
+            ctx.count("terminal_regex_end_calls", len(got))
+            if 2 in exp:
+                ctx.nontrivial((p.meta["regex"], "terminal", w.hex()))
+            if got != exp:
+                j = next((i for i in range(len(exp)) if i >= len(got) or got[i] != exp[i]), 0)
+                what = "end-accepts-proper-prefix" if (j < len(got) and got[j] == 2) else "end-rejects-member"
+                ctx.violation("c07:terminal:" + what, "regex %s alone in a parser: end() after %r returns %s, expected %s" % (p.meta["regex"], w[:j], got[j] if j < len(got) else None, exp[j]),
+                              {"regex": p.meta["regex"], "nmfu_source": p.meta["src"], "nmfu_args": p.meta["args"], "input_hex": w.hex(), "expected": exp, "observed": got})
+        batch.cleanup()
+
+
 def run(ctx: Ctx):
     rng = ctx.rng
     quick = ctx.quick
@@ -120,8 +185,10 @@ def run(ctx: Ctx):
     # probes for the escaped-space lexing quirk (known finding): source text written by hand, oracle from the documented meaning
     probes = [("/\\ d/", rx.lit(b" d")), ("/a\\ s+/", rx.seq(rx.lit(b"a "), rx.cat(rx.mkset([115]), rx.star(rx.mkset([115]))))), ("/x\\ \\ y/", rx.lit(b"x  y"))]
     lang.check_languages(ctx, [(rx.src(t, b), sem, None) for t, b, sem in todo] + [(ps, sem, [b" d", b"5", b"a s", b"a\t", b"x  y"]) for ps, sem in probes], rng, "c07", strings_budget=strings_budget, sweep_states=sweep_states, per_batch=per_batch, classify=classify)
+    terminal_regexes(ctx, rng, [(t, b, sem) for t, b, sem in todo if not gen.tail_open(sem) and not rx.nullable(sem)], 150 if quick else 1500)
     ctx.floor("prefix_observations", 20000 if quick else 300000)
     ctx.floor("sweeps", 300)
+    ctx.floor("terminal_regex_end_calls", 300)
     ctx.rule = ("case = (regex, string of class representatives) observed at every prefix through end() on a state copy, or (regex, derivative "
                 "state, all 256 next bytes) by a forced one-byte sweep; regexes: every atom x repetition operator, sampled 2-3 element "
                 "sequences/alternations, random larger ones incl. binary form and high bytes; non-trivial = some prefix is accepted, or a "
